@@ -17,3 +17,9 @@ open XotModel.Props
 #print axioms C15_idem_partial_noShadowing
 #print axioms C15_idem_needs_noRebind
 #print axioms C15_idem_needs_noFlag
+#print axioms C15_representable
+#print axioms C15_representable_fragment
+#print axioms C15_reparses_deep_equal
+#print axioms C15_roundtrip_partial
+#print axioms C15_roundtrip_partial_text
+#print axioms C15_rt_witness_noShadowing
